@@ -453,6 +453,9 @@ func (pg *progGen) goal(size, nenv int) *G {
 			return gEq(pg.term(2, nenv), pg.term(2, nenv))
 		}
 	}
+	if size >= 4 && r.Intn(8) == 0 {
+		return pg.patternThenBranch(nenv)
+	}
 	k := r.Intn(13)
 	if !pg.allowNon && k >= 11 {
 		k = r.Intn(11)
@@ -487,6 +490,52 @@ func (pg *progGen) goal(size, nenv int) *G {
 	default:
 		return gOnce(pg.goal(size-1, nenv))
 	}
+}
+
+// patternThenBranch is the everyday shape "match a pattern against data, then branch": fresh variables, a NON-LINEAR list
+// pattern (a variable may occur several times) equated with a ground list, then a disjunction whose branches each bind
+// further variables, then a test on one of those variables.  An engine that shares substitution storage between the
+// states of sibling branches (spare capacity left by the first equation) answers this shape wrongly.
+func (pg *progGen) patternThenBranch(nenv int) *G {
+	r := pg.r
+	k := 2 + r.Intn(3) // fresh variables: indices 0..k-1 after the binders (outer environment shifted by k)
+	m := 2 + r.Intn(3)
+	pat, dat := ptNil(), ptNil()
+	vals := make([]*ast.SExpr, k)
+	for i := range vals {
+		vals[i] = pick(r, progAtoms)
+	}
+	used := k / 2 // only the first `used`+1 variables occur in the pattern; the others are bound in the branches
+	for i := 0; i < m; i++ {
+		v := r.Intn(used + 1)
+		pat = ptPair(ptB(v), pat)
+		a := vals[v]
+		if r.Intn(6) == 0 {
+			a = pick(r, progAtoms) // sometimes inconsistent data: the match fails
+		}
+		dat = ptPair(ptAtom(a), dat)
+	}
+	other := func() *PT { return ptB((used + 1 + r.Intn(k-used)) % k) }
+	small := func() *G {
+		x := other()
+		if r.Intn(3) == 0 {
+			return gConj(gEq(x, ptAtom(pick(r, progAtoms))), gEq(other(), ptAtom(pick(r, progAtoms))))
+		}
+		return gEq(x, ptAtom(pick(r, progAtoms)))
+	}
+	body := gConj(gEq(pat, dat), gConj(gDisj(small(), small()), small()))
+	if nenv > 0 && r.Intn(2) == 0 {
+		// make the outcome visible through the query: query == list of the fresh variables
+		q := ptNil()
+		for i := k - 1; i >= 0; i-- {
+			q = ptPair(ptB(i), q)
+		}
+		body = gConj(body, gEq(ptB(k+r.Intn(nenv)), q))
+	}
+	for i := 0; i < k; i++ {
+		body = gFresh(body)
+	}
+	return body
 }
 
 // ---------- reference interpreter (direct oracle): depth-bounded exhaustive search ----------
